@@ -3,7 +3,7 @@
    matrix of every recorded swap satisfies the loop invariant [LI] and has the degrees of the matrix the loop
    started from.  No hypothesis beyond "the run returned". *)
 From Coq Require Import ZArith List Arith Bool Lia QArith.
-From BCT Require Import Base.Mat Base.ListX Model.Components Model.Rewire Model.RewireBin Proofs.RewireSwap Proofs.RewireBin.
+From BCT Require Import Base.Mat Base.ListX Model.Components Model.Rewire Model.RewireBin Proofs.RewireSwap Proofs.RewireBin Proofs.RewireRun.
 From BCT Require Proofs.Components.
 Import ListNotations.
 Open Scope Z_scope.
@@ -437,3 +437,338 @@ Proof.
       apply Forall_app. split; [exact Htr|]. constructor; [|constructor].
       split; cbn [re_R re_i re_j]; assumption.
 Qed.
+
+(* ------------------------------------------------------------------ before the loop *)
+Lemma tab_sym_on (f : mat Z) n :
+  (forall x y, (x < n)%nat -> (y < n)%nat -> f x y = f y x) -> forall x y, tab 0 n n f x y = tab 0 n n f y x.
+Proof.
+  intros Hs x y. destruct (lt_dec x n) as [Hx|Hx]; destruct (lt_dec y n) as [Hy|Hy].
+  - rewrite !tab_spec; auto.
+  - rewrite !tab_out; auto; lia.
+  - rewrite !tab_out; auto; lia.
+  - rewrite !tab_out; auto; lia.
+Qed.
+
+Lemma tab_fill_off n f x y : (x < n)%nat -> (y < n)%nat -> x <> y -> tab 0 n n (fill_sent f) x y = f x y.
+Proof. intros Hx Hy Hne. rewrite tab_spec by assumption. unfold fill_sent. destruct (Nat.eqb_spec x y); [contradiction|reflexivity]. Qed.
+
+Lemma WM_tab_fill n f :
+  (forall x y, (x < n)%nat -> (y < n)%nat -> f x y = f y x) ->
+  (forall x y, (x < n)%nat -> (y < n)%nat -> x <> y -> f x y = 0 \/ f x y = 1) ->
+  WM n (tab 0 n n (fill_sent f)).
+Proof.
+  intros Hs H01. constructor.
+  - apply tab_sym_on. intros x y Hx Hy. unfold fill_sent. rewrite (Nat.eqb_sym y x).
+    destruct (Nat.eqb x y); [reflexivity|apply Hs; assumption].
+  - intros x y Hx Hy Hne. rewrite tab_fill_off by assumption. apply H01; assumption.
+  - intros x Hx. rewrite tab_spec by assumption. unfold fill_sent. rewrite Nat.eqb_refl. reflexivity.
+Qed.
+
+Lemma bin01_01 R x y : bin01 R x y = 0 \/ bin01 R x y = 1.
+Proof. unfold bin01. destruct (Z.eqb (R x y) 0); auto. Qed.
+Lemma lnot_01 R x y : lnot R x y = 0 \/ lnot R x y = 1.
+Proof. unfold lnot. destruct (Z.eqb (R x y) 0); auto. Qed.
+
+(* the edge index the loop starts from *)
+Lemma init_LI n R : WM n R ->
+  LI n (length (triu_edges n R)) R (of_list O (map fst (triu_edges n R))) (of_list O (map snd (triu_edges n R))).
+Proof.
+  intros HW. pose proof HW as [Hsym H01 Hdiag].
+  set (el := triu_edges n R).
+  assert (Hcell: forall m, (of_list O (map fst el) m, of_list O (map snd el) m) = nth m el (O, O)).
+  { intros m. unfold of_list. rewrite (nth_fst el m O O), (nth_snd el m O O). destruct (nth m el (O, O)); reflexivity. }
+  assert (Hin: forall m, (m < length el)%nat ->
+            (of_list O (map fst el) m < n)%nat /\ (of_list O (map snd el) m < n)%nat /\
+            R (of_list O (map fst el) m) (of_list O (map snd el) m) = 1 /\
+            (of_list O (map fst el) m < of_list O (map snd el) m)%nat).
+  { intros m Hm. assert (I: In (of_list O (map fst el) m, of_list O (map snd el) m) el) by (rewrite Hcell; apply nth_In; exact Hm).
+    unfold el, triu_edges in I. apply edge_list_In in I. destruct I as ([A B] & C & D).
+    cbn [el_keep fst snd] in D. apply Nat.ltb_lt in D.
+    split; [exact A|]. split; [exact B|]. split; [|exact D].
+    destruct (H01 _ _ A B ltac:(lia)) as [E|E]; [contradiction|exact E]. }
+  constructor.
+  - exact HW.
+  - intros m Hm. destruct (Hin m Hm) as (A & B & C & _). auto.
+  - intros m m' Hm Hm' Hne. destruct (Hin m Hm) as (_ & _ & _ & L). destruct (Hin m' Hm') as (_ & _ & _ & L').
+    split; [|lia]. intros [E1 E2]. apply Hne.
+    apply (proj1 (NoDup_nth el (O, O)) (edge_list_NoDup ELtriu1 n R)); auto.
+    rewrite <- !Hcell. congruence.
+  - intros u v Hu Hv V.
+    assert (Huv: u <> v) by (intros ->; rewrite Hdiag in V by exact Hv; exact (SENT_not1 V)).
+    assert (Key: forall p q, (p < n)%nat -> (q < n)%nat -> R p q = 1 -> (p < q)%nat ->
+              exists m, (m < length el)%nat /\ of_list O (map fst el) m = p /\ of_list O (map snd el) m = q).
+    { intros p q Hp Hq W L.
+      assert (I: In (p, q) el).
+      { unfold el, triu_edges. apply edge_list_In. split; [auto|]. split; [rewrite W; discriminate|].
+        cbn [el_keep fst snd]. apply Nat.ltb_lt. exact L. }
+      destruct (In_nth el (p, q) (O, O) I) as (m & Hm & Em). exists m. split; [exact Hm|].
+      specialize (Hcell m). rewrite Em in Hcell. inversion Hcell. auto. }
+    destruct (lt_dec u v) as [L|L].
+    + destruct (Key u v Hu Hv V L) as (m & Hm & E1 & E2). exists m. auto.
+    + assert (V': R v u = 1) by (rewrite Hsym; exact V).
+      destruct (Key v u Hv Hu V' ltac:(lia)) as (m & Hm & E1 & E2). exists m. auto.
+Qed.
+
+(* ---------- masking and unmasking the fully connected nodes ---------- *)
+Definition mask_full (n : nat) (fl : list nat) (R2 : mat Z) : mat Z :=
+  match fl with [] => R2 | _ => tab 0 n n (fill_sent (set_lines fl 0 R2)) end.
+Definition unmask (fl : list nat) (R4 : mat Z) : mat Z :=
+  match fl with [] => R4 | _ => set_lines fl 1 R4 end.
+
+Lemma unmask_spec fl R x y : unmask fl R x y = if (nmem x fl || nmem y fl)%bool then 1 else R x y.
+Proof. destruct fl; reflexivity. Qed.
+
+Lemma mask_full_spec n fl R2 : WM n R2 ->
+  WM n (mask_full n fl R2) /\
+  (forall x y, (x < n)%nat -> (y < n)%nat -> x <> y ->
+     mask_full n fl R2 x y = if (nmem x fl || nmem y fl)%bool then 0 else R2 x y).
+Proof.
+  intros HW. pose proof HW as [Hsym H01 Hdiag]. destruct fl as [|f0 fr].
+  - split; [exact HW|]. intros; reflexivity.
+  - cbn [mask_full]. split.
+    + apply WM_tab_fill.
+      * intros x y _ _. unfold set_lines. rewrite (orb_comm (nmem y _)). rewrite (Hsym y x). reflexivity.
+      * intros x y Hx Hy Hne. unfold set_lines. destruct (nmem x _ || nmem y _)%bool; [left; reflexivity|apply H01; assumption].
+    + intros x y Hx Hy Hne. rewrite tab_fill_off by assumption. reflexivity.
+Qed.
+
+Lemma fullnodes_In n R x : WM n R ->
+  (In x (fullnodes n R) <-> (x < n)%nat /\ offdeg n R x = Z.of_nat n - 1).
+Proof.
+  intros HW. unfold fullnodes. rewrite filter_In, in_seq, Z.eqb_eq. split.
+  - intros [A B]. split; [lia|]. rewrite <- wdeg_offdeg by (auto; lia). exact B.
+  - intros [A B]. split; [lia|]. rewrite wdeg_offdeg by auto. exact B.
+Qed.
+
+Section Mask.
+Variables (n : nat) (R2 R4 : mat Z).
+Hypothesis HW2 : WM n R2.
+Hypothesis HW4 : WM n R4.
+Notation fl := (fullnodes n R2).
+Notation R3 := (mask_full n (fullnodes n R2) R2).
+Hypothesis Hdeg : forall x, (x < n)%nat -> offdeg n R4 x = offdeg n R3 x.
+
+Definition nfull : Z := sumn (fun y => b2z (nmem y fl)) n.
+
+Lemma full_adj x y : In x fl -> (y < n)%nat -> y <> x -> R2 x y = 1 /\ R2 y x = 1.
+Proof.
+  intros Hx Hy Hne. apply (fullnodes_In n R2 x HW2) in Hx. destruct Hx as [Hx E].
+  pose proof (offdeg_full n R2 x y E Hx Hy Hne) as NZ.
+  destruct (wm_01 n R2 HW2 x y Hx Hy (not_eq_sym Hne)) as [Z0|Z1]; [contradiction|].
+  split; [exact Z1|]. rewrite (wm_sym n R2 HW2). exact Z1.
+Qed.
+
+Lemma R3_off x y : (x < n)%nat -> (y < n)%nat -> x <> y ->
+  R3 x y = if (nmem x fl || nmem y fl)%bool then 0 else R2 x y.
+Proof. apply (mask_full_spec n fl R2 HW2). Qed.
+
+Lemma R3_deg_in x : (x < n)%nat -> In x fl -> offdeg n R3 x = 0.
+Proof.
+  intros Hx Hin. unfold offdeg. transitivity (sumn (fun _ => 0) n); [|apply sumn_zero]. apply sumn_ext. intros y Hy.
+  destruct (Nat.eqb_spec y x); [reflexivity|]. rewrite R3_off by auto.
+  apply nmem_In in Hin. rewrite Hin. reflexivity.
+Qed.
+
+Lemma R3_deg_out x : (x < n)%nat -> ~ In x fl -> offdeg n R2 x = offdeg n R3 x + nfull.
+Proof.
+  intros Hx Hnin. unfold offdeg, nfull. rewrite <- sumn_add. apply sumn_ext. intros y Hy.
+  apply nmem_false in Hnin.
+  destruct (Nat.eqb_spec y x) as [->|Hne]; [rewrite Hnin; reflexivity|].
+  rewrite R3_off by auto. rewrite Hnin. cbn [orb].
+  destruct (nmem y fl) eqn:Ey; cbn [b2z]; [|lia].
+  apply nmem_In in Ey. destruct (full_adj y x Ey Hx (not_eq_sym Hne)) as [_ E]. rewrite E. reflexivity.
+Qed.
+
+Lemma R4_zero x y : In x fl -> (y < n)%nat -> y <> x -> R4 x y = 0 /\ R4 y x = 0.
+Proof.
+  intros Hin Hy Hne. assert (Hx: (x < n)%nat) by (apply (fullnodes_In n R2 x HW2) in Hin; tauto).
+  assert (E: R4 x y = 0).
+  { apply (offdeg_zero n R4 x y); auto. rewrite Hdeg by exact Hx. apply R3_deg_in; assumption. }
+  split; [exact E|]. rewrite (wm_sym n R4 HW4). exact E.
+Qed.
+
+Lemma unmask_deg x : (x < n)%nat -> offdeg n (unmask fl R4) x = offdeg n R2 x.
+Proof.
+  intros Hx. destruct (in_dec Nat.eq_dec x fl) as [Hin|Hnin].
+  - pose proof (proj1 (fullnodes_In n R2 x HW2) Hin) as [_ E]. rewrite E.
+    rewrite <- (sumn_except n x Hx). unfold offdeg. apply sumn_ext. intros y Hy.
+    destruct (Nat.eqb_spec y x); [reflexivity|]. rewrite unmask_spec.
+    apply nmem_In in Hin. rewrite Hin. reflexivity.
+  - rewrite (R3_deg_out x Hx Hnin). rewrite <- Hdeg by exact Hx.
+    unfold offdeg, nfull. rewrite <- sumn_add. apply sumn_ext. intros y Hy.
+    pose proof Hnin as Hf. apply nmem_false in Hf.
+    destruct (Nat.eqb_spec y x) as [->|Hne]; [rewrite Hf; reflexivity|].
+    rewrite unmask_spec, Hf. cbn [orb].
+    destruct (nmem y fl) eqn:Ey; cbn [b2z]; [|lia].
+    apply nmem_In in Ey. destruct (R4_zero y x Ey Hx (not_eq_sym Hne)) as [_ E]. rewrite E. reflexivity.
+Qed.
+
+Lemma unmask_sym x y : unmask fl R4 x y = unmask fl R4 y x.
+Proof. rewrite !unmask_spec. rewrite (orb_comm (nmem y _)). rewrite (wm_sym n R4 HW4 y x). reflexivity. Qed.
+
+Lemma unmask_01 x y : (x < n)%nat -> (y < n)%nat -> x <> y -> unmask fl R4 x y = 0 \/ unmask fl R4 x y = 1.
+Proof.
+  intros Hx Hy Hne. rewrite unmask_spec. destruct (nmem x _ || nmem y _)%bool; [right; reflexivity|].
+  apply (wm_01 n R4 HW4); assumption.
+Qed.
+End Mask.
+
+(* ------------------------------------------------------------------ the stages of the routine, named *)
+Definition rbu_R1 (n : nat) (R0 : mat Z) : mat Z := tab 0 n n (fill_sent (bin01 R0)).
+Definition rbu_swapped (n : nat) (R0 : mat Z) : bool :=
+  Nat.ltb (n * n - n) (4 * length (triu_edges n (rbu_R1 n R0))).
+Definition rbu_R2 (n : nat) (R0 : mat Z) : mat Z :=
+  if rbu_swapped n R0 then tab 0 n n (fill_sent (lnot (rbu_R1 n R0))) else rbu_R1 n R0.
+Definition rbu_fl (n : nat) (R0 : mat Z) : list nat := fullnodes n (rbu_R2 n R0).
+(* the matrix the loop starts from, and the number of its connections *)
+Definition rbu_R3 (n : nat) (R0 : mat Z) : mat Z := mask_full n (rbu_fl n R0) (rbu_R2 n R0).
+Definition rbu_k (n : nat) (R0 : mat Z) : nat := length (triu_edges n (rbu_R3 n R0)).
+
+Lemma rbu_unfold n R0 alpha s :
+  randomizer_bin_und n R0 alpha s =
+  if negb (symmetricb n (bin01 R0)) then RbuError else
+  if (Nat.eqb (rbu_k n R0) 0 || Nat.leb ((n * n - n) - 2) (2 * rbu_k n R0))%bool then RbuError else
+  match rbu_loop n (rbu_k n R0) alpha (seq 0 (rbu_k n R0)) (rbu_R3 n R0)
+          (of_list O (map fst (triu_edges n (rbu_R3 n R0)))) (of_list O (map snd (triu_edges n (rbu_R3 n R0)))) s [] with
+  | None => RbuStream
+  | Some (R4, tr, s') =>
+      RbuOk (fun x y => if Nat.eqb x y then bin01 R0 x x
+                        else (if rbu_swapped n R0 then lnot (unmask (rbu_fl n R0) R4) else unmask (rbu_fl n R0) R4) x y)
+            tr (length s')
+  end.
+Proof. reflexivity. Qed.
+
+Lemma rbu_R1_WM n R0 : symmetricb n (bin01 R0) = true -> WM n (rbu_R1 n R0).
+Proof.
+  intros Hs. apply Proofs.Components.symmetricb_true in Hs. apply WM_tab_fill.
+  - exact Hs.
+  - intros x y _ _ _. apply bin01_01.
+Qed.
+
+Lemma rbu_R2_WM n R0 : symmetricb n (bin01 R0) = true -> WM n (rbu_R2 n R0).
+Proof.
+  intros Hs. pose proof (rbu_R1_WM n R0 Hs) as HW. unfold rbu_R2. destruct (rbu_swapped n R0); [|exact HW].
+  apply WM_tab_fill.
+  - intros x y _ _. unfold lnot. rewrite (wm_sym _ _ HW x y). reflexivity.
+  - intros x y _ _ _. apply lnot_01.
+Qed.
+
+Lemma rbu_R3_WM n R0 : symmetricb n (bin01 R0) = true -> WM n (rbu_R3 n R0).
+Proof. intros Hs. apply mask_full_spec. apply rbu_R2_WM. exact Hs. Qed.
+
+Lemma rbu_R1_deg n R0 x : (x < n)%nat -> offdeg n (rbu_R1 n R0) x = offdeg n (bin01 R0) x.
+Proof. intros Hx. apply offdeg_ext. intros y Hy Hne. unfold rbu_R1. apply tab_fill_off; auto. Qed.
+
+(* the working matrix the loop starts from (before full nodes are masked) has the degrees of the input, or
+   their complements when the routine works on the complement graph *)
+Lemma rbu_R2_deg n R0 x : (x < n)%nat ->
+  offdeg n (rbu_R2 n R0) x =
+  if rbu_swapped n R0 then Z.of_nat n - 1 - offdeg n (bin01 R0) x else offdeg n (bin01 R0) x.
+Proof.
+  intros Hx. unfold rbu_R2. destruct (rbu_swapped n R0); [|apply rbu_R1_deg; exact Hx].
+  rewrite <- rbu_R1_deg by exact Hx. rewrite <- (offdeg_lnot n (rbu_R1 n R0) x Hx).
+  apply offdeg_ext. intros y Hy Hne. apply tab_fill_off; auto.
+Qed.
+
+(* ------------------------------------------------------------------ the whole routine *)
+Theorem rbu_full : forall n R0 alpha s out tr lft,
+  randomizer_bin_und n R0 alpha s = RbuOk out tr lft ->
+  (* every node keeps its degree *)
+  (forall x, (x < n)%nat -> offdeg n out x = offdeg n (bin01 R0) x) /\
+  (* symmetric, binary, diagonal of the binarised input *)
+  (forall x y, (x < n)%nat -> (y < n)%nat -> out x y = out y x) /\
+  (forall x y, (x < n)%nat -> (y < n)%nat -> x <> y -> out x y = 0 \/ out x y = 1) /\
+  (forall x, (x < n)%nat -> out x x = bin01 R0 x x) /\
+  (* same number of connections *)
+  sumn (offdeg n out) n = sumn (offdeg n (bin01 R0)) n /\
+  (* the run only returns on a symmetric (binarised) input *)
+  (forall x y, (x < n)%nat -> (y < n)%nat -> bin01 R0 x y = bin01 R0 y x) /\
+  (* every recorded swap: the invariant, and the degrees of the matrix the loop started from *)
+  Forall (EvI n (rbu_k n R0) (rbu_R3 n R0)) tr.
+Proof.
+  intros n R0 alpha s out tr lft H. rewrite rbu_unfold in H.
+  destruct (symmetricb n (bin01 R0)) eqn:Hs; cbn [negb] in H; [|discriminate].
+  destruct (Nat.eqb (rbu_k n R0) 0 || Nat.leb (n * n - n - 2) (2 * rbu_k n R0))%bool; [discriminate|].
+  destruct (rbu_loop _ _ _ _ _ _ _ _ _) as [[[R4 tr4] s4]|] eqn:HL; [|discriminate].
+  inversion H; subst out tr lft; clear H.
+  pose proof (rbu_R2_WM n R0 Hs) as HW2. pose proof (rbu_R3_WM n R0 Hs) as HW3.
+  assert (Hits: forall it, In it (seq 0 (rbu_k n R0)) -> (it < rbu_k n R0)%nat)
+    by (intros it Hit; apply in_seq in Hit; lia).
+  assert (Hd0: forall x, (x < n)%nat -> offdeg n (rbu_R3 n R0) x = offdeg n (rbu_R3 n R0) x) by reflexivity.
+  destruct (rbu_loop_inv n (rbu_k n R0) alpha (rbu_R3 n R0) _ _ _ _ _ _ _ _ _
+              Hits (init_LI n (rbu_R3 n R0) HW3) Hd0 (Forall_nil _) HL)
+    as ((i4 & j4 & HLI4) & Hdeg4 & Htr4).
+  pose proof (li_wm _ _ _ _ _ HLI4) as HW4.
+  set (R5 := unmask (rbu_fl n R0) R4).
+  assert (D5: forall x, (x < n)%nat -> offdeg n R5 x = offdeg n (rbu_R2 n R0) x).
+  { intros x Hx. apply (unmask_deg n (rbu_R2 n R0) R4 HW2 HW4 Hdeg4 x Hx). }
+  assert (S5: forall x y, R5 x y = R5 y x) by (apply (unmask_sym n (rbu_R2 n R0) R4 HW4)).
+  assert (B5: forall x y, (x < n)%nat -> (y < n)%nat -> x <> y -> R5 x y = 0 \/ R5 x y = 1)
+    by (apply (unmask_01 n (rbu_R2 n R0) R4 HW4)).
+  set (R6 := if rbu_swapped n R0 then lnot R5 else R5).
+  set (out := fun x y => if Nat.eqb x y then bin01 R0 x x else R6 x y).
+  assert (Dout: forall x, (x < n)%nat -> offdeg n out x = offdeg n (bin01 R0) x).
+  { intros x Hx. transitivity (offdeg n R6 x).
+    - apply offdeg_ext. intros y Hy Hne. unfold out. destruct (Nat.eqb_spec x y); [congruence|reflexivity].
+    - unfold R6. pose proof (rbu_R2_deg n R0 x Hx) as E2. pose proof (D5 x Hx) as E5.
+      destruct (rbu_swapped n R0).
+      + rewrite offdeg_lnot by exact Hx. lia.
+      + lia. }
+  split; [exact Dout|].
+  split.
+  { intros x y _ _. unfold out. rewrite (Nat.eqb_sym y x). destruct (Nat.eqb_spec x y) as [->|_]; [reflexivity|].
+    unfold R6. destruct (rbu_swapped n R0); [unfold lnot; rewrite (S5 x y); reflexivity|apply S5]. }
+  split.
+  { intros x y Hx Hy Hne. unfold out. destruct (Nat.eqb_spec x y); [contradiction|].
+    unfold R6. destruct (rbu_swapped n R0); [apply lnot_01|apply B5; assumption]. }
+  split.
+  { intros x _. unfold out. rewrite Nat.eqb_refl. reflexivity. }
+  split.
+  { apply sumn_ext. exact Dout. }
+  split.
+  { apply Proofs.Components.symmetricb_true. exact Hs. }
+  exact Htr4.
+Qed.
+
+(* degrees of the matrix the loop starts from, in terms of the input: masked (fully connected) nodes have
+   degree 0 there, every other node loses its connections to the masked nodes *)
+Lemma rbu_R3_deg n R0 x : symmetricb n (bin01 R0) = true -> (x < n)%nat ->
+  offdeg n (rbu_R3 n R0) x =
+  if nmem x (rbu_fl n R0) then 0 else offdeg n (rbu_R2 n R0) x - nfull n (rbu_R2 n R0).
+Proof.
+  intros Hs Hx. pose proof (rbu_R2_WM n R0 Hs) as HW2. unfold rbu_R3, rbu_fl.
+  destruct (nmem x (fullnodes n (rbu_R2 n R0))) eqn:E.
+  - apply nmem_In in E. apply R3_deg_in; assumption.
+  - apply nmem_false in E. rewrite (R3_deg_out n (rbu_R2 n R0) HW2 x Hx E). lia.
+Qed.
+
+Lemma rbu_start_degrees n R0 x : symmetricb n (bin01 R0) = true -> (x < n)%nat ->
+  offdeg n (rbu_R2 n R0) x =
+    (if rbu_swapped n R0 then Z.of_nat n - 1 - offdeg n (bin01 R0) x else offdeg n (bin01 R0) x) /\
+  offdeg n (rbu_R3 n R0) x =
+    (if nmem x (rbu_fl n R0) then 0 else offdeg n (rbu_R2 n R0) x - nfull n (rbu_R2 n R0)).
+Proof. intros Hs Hx. split; [apply rbu_R2_deg; exact Hx|apply rbu_R3_deg; assumption]. Qed.
+
+(* ------------------------------------------------------------------ the theorem is not vacuous *)
+(* two disjoint edges on 4 nodes: one swap (0-1, 2-3 -> 0-2, 1-3), second edge skipped *)
+Example rbu_full_nonvacuous_sparse :
+  match randomizer_bin_und 4 (of_rows 0 [[0;3;0;0];[3;0;0;0];[0;0;0;1];[0;0;1;0]]) 1
+          [DFlt 0; DInt 0; DFlt (3 # 4); DFlt 2] with
+  | RbuOk out tr lft => (to_rows 4 4 out, length tr, lft)
+  | _ => ([], O, O)
+  end = ([[0;0;1;0];[0;0;0;1];[1;0;0;0];[0;1;0;0]], 1%nat, 0%nat).
+Proof. vm_compute. reflexivity. Qed.
+
+(* 6 nodes, K5 minus {0-1, 2-3} plus the isolated node 5, a self-loop on node 4: the routine works on the
+   complement (rbu_swapped), masks the fully connected node 5 there (rbu_fl = [5]), swaps once, skips the
+   second edge, and restores everything *)
+Example rbu_full_nonvacuous_dense :
+  let R0 := of_rows 0 [[0;0;1;1;1;0];[0;0;1;1;1;0];[1;1;0;0;1;0];[1;1;0;0;1;0];[1;1;1;1;7;0];[0;0;0;0;0;0]] in
+  (rbu_swapped 6 R0, rbu_fl 6 R0,
+   match randomizer_bin_und 6 R0 1 [DFlt 0; DInt 1; DFlt 0; DFlt 2] with
+   | RbuOk out tr lft => (to_rows 6 6 out, length tr, lft)
+   | _ => ([], O, O)
+   end) =
+  (true, [5%nat],
+   ([[0;1;0;1;1;0];[1;0;1;0;1;0];[0;1;0;1;1;0];[1;0;1;0;1;0];[1;1;1;1;1;0];[0;0;0;0;0;0]], 1%nat, 0%nat)).
+Proof. vm_compute. reflexivity. Qed.
